@@ -147,6 +147,56 @@ for n in range(1, N + 1):
                         fail(violation="C02: reported missing requirements differ", got=got_missing, want=want_missing, **ctx)
         for c in comps:
             dr.set_enabled(c, True)
+# ---------------------------------------------------------------- enable / disable configuration (insights.apply_default_enabled / apply_configs)
+import insights as _ins
+CFGLOG = []
+
+
+def cfg_comp(name):
+    def body():
+        CFGLOG.append(name)
+        return name
+    body.__name__ = body.__qualname__ = name
+    body.__module__ = "verif_cfg"
+    return component()(body)
+
+
+cfg_comps = dict((nm, cfg_comp(nm)) for nm in ("r_alpha", "r_beta", "s_gamma"))
+NAMES = ["verif_cfg", "verif_cfg.r_", "verif_cfg.r_alpha", "verif_cfg.s_gamma", "verif_cfg.zzz"]
+ENTRY = [dict(name=nm, **({} if en is None else {"enabled": en})) for nm in NAMES for en in (True, False, None)]
+cfgs = 0
+saved_enabled = dr.ENABLED
+for default in (True, False):
+    for k in (0, 1, 2):
+        for entries in itertools.product(ENTRY, repeat=k):
+            for pre_disabled in (None, "r_alpha"):
+                dr.ENABLED = dict((c, True) for c in dr.ENABLED)
+                if pre_disabled:
+                    dr.set_enabled(cfg_comps[pre_disabled], False)
+                config = {"default_component_enabled": default, "configs": [dict(e) for e in entries]}
+                _ins.apply_default_enabled(config)
+                _ins.apply_configs(config)
+                cfgs += 1
+                for nm, c in cfg_comps.items():
+                    full = "verif_cfg." + nm
+                    want = default
+                    for e in entries:
+                        if full.startswith(e["name"]):
+                            want = e.get("enabled", default)
+                    if bool(dr.is_enabled(c)) != bool(want):
+                        fail(violation="C02: a component's enabled state is not the one of the last matching configuration entry (else the default)",
+                             component=full, config=config, disabled_beforehand=pre_disabled, got=bool(dr.is_enabled(c)), want=bool(want))
+                del CFGLOG[:]
+                b = dr.Broker()
+                dr.run(dict((c, set()) for c in cfg_comps.values()), broker=b)
+                ran = sorted(CFGLOG)
+                should = sorted(nm for nm, c in cfg_comps.items() if dr.is_enabled(c))
+                if ran != should:
+                    fail(violation="C02: invoked components differ from the enabled ones", config=config, ran=ran, enabled=should)
+dr.ENABLED = saved_enabled
+for c in cfg_comps.values():
+    dr.set_enabled(c, True)
+
 # ---------------------------------------------------------------- dependency closure: get_dependency_graph == every declared edge reachable from the target
 closures = 0
 for n in range(2, 6):
@@ -184,4 +234,4 @@ for n in range(2, 6):
         for c, ds in want.items():
             if any(pos[d] > pos[c] for d in ds):
                 fail(violation="C01: the run order puts a component before one of its dependencies", edges=edges)
-print(json.dumps({"ok": True, "max_components": N, "runs": runs, "closure_graphs": closures}))
+print(json.dumps({"ok": True, "max_components": N, "runs": runs, "closure_graphs": closures, "configurations": cfgs}))
